@@ -10,7 +10,7 @@ def S(t):
     return tstr(expand(t))
 
 
-def fact_call(name_re, pol=True, arg_res=None):
+def fact_call(name_re, pol=True, arg_res=None, names=False):
     """Fact: boolean call `name(...)` has polarity pol. arg_res: optional list of regexes
     (None = any) matched against the *expanded* argument strings."""
     def pred(f):
@@ -24,13 +24,13 @@ def fact_call(name_re, pol=True, arg_res=None):
             for i, r in enumerate(arg_res):
                 if r is None:
                     continue
-                if i >= len(args) or not re.search(r, S(args[i])):
+                if i >= len(args) or not re.search(r, (tstr if names else S)(args[i])):
                     return False
         return True
     return pred
 
 
-def fact_is(term_re, variants):
+def fact_is(term_re, variants, names=False):
     """Fact: place/term (expanded string matches term_re) is one of `variants` (subset)."""
     vs = set([variants] if isinstance(variants, str) else variants)
 
@@ -39,7 +39,7 @@ def fact_is(term_re, variants):
             return False
         if not set(f.variants) <= vs or not f.variants:
             return False
-        return re.search(term_re, S(f.term)) is not None
+        return re.search(term_re, (tstr if names else S)(f.term)) is not None
     return pred
 
 
@@ -70,14 +70,14 @@ def cmp_of(f):
     return (op, t[2], t[3])
 
 
-def fact_cmp(op, a_re, b_re):
+def fact_cmp(op, a_re, b_re, names=False):
     """Fact equivalent to `a op b` (either orientation), a/b matched on expanded strings."""
     def pred(f):
         c = cmp_of(f)
         if c is None:
             return False
         o, l, r = c
-        ls, rs = S(l), S(r)
+        ls, rs = (tstr if names else S)(l), (tstr if names else S)(r)
         if o == op and re.search(a_re, ls) and re.search(b_re, rs):
             return True
         if CMP_SWAP[o] == op and re.search(a_re, rs) and re.search(b_re, ls):
@@ -254,3 +254,17 @@ def user_closures(P, body):
                     continue
                 ids.append(st['rv']['id'])
     return [P.bodies[i] for i in ids if i in P.bodies]
+
+
+def must_pass_block_from(body, start_bb, target_bb, via_blocks):
+    """True iff every path start_bb -> target_bb passes through one of via_blocks."""
+    via = set(via_blocks)
+    if start_bb in via or target_bb in via:
+        return True
+    seen = body.reachable_avoiding(None, start=start_bb, blocked_block=lambda x: x in via)
+    return target_bb not in seen
+
+
+def edge_targets(body, fact_pred):
+    """Destination blocks of edges all of whose facts satisfy fact_pred."""
+    return [d for (s, d, fs) in body.edges() if fs and all(fact_pred(f) for f in fs)]
